@@ -6,10 +6,19 @@ have no influence.
 Correspondence: generated acyclic DRGs (inputs, decisions with literal / context / invocation / relation logic, knowledge
 models invoked literally and by boxed invocation and requiring knowledge models and services, decision services with
 input / encapsulated / output decisions) serialised to DMN XML, every invocable invoked through evaluate_invocable with
-several input contexts; compared with impl_invoke / spec_invoke instantiated with the tiny evaluator `teval`."""
+several input contexts; compared with impl_invoke / spec_invoke instantiated with the tiny evaluator `teval`.
+The literal fragment has numbers as decimal128 data (small, negative, around 10^17 where products begin to be rounded, literals
+of more than 34 digits), strings (+ concatenates, every other mix is null) and knowledge models with repeated formal parameter
+names (the last argument stays bound); numbers are compared by value, at every size."""
+import decimal
 import json
 import os
 import re
+from decimal import Decimal
+
+decimal.getcontext().prec = 200          # exact handling of 34-digit coefficients (as props/c01.py)
+decimal.getcontext().Emax = 999999
+decimal.getcontext().Emin = -999999
 
 from vlib import core
 from vlib.coqterm import App
@@ -36,22 +45,27 @@ def num_of(name):
 
 
 # ------------------------------------------------------------------ expressions
-# ('null',) ('num', z) ('var', n) ('add', a, b) ('mul', a, b) ('call', f, (args)) ('invoke', f, ((p, e), ..)) ('ctx', ((k, e), ..), res|None) ('rel', (cols), ((cells..), ..))
+# ('null',) ('num', z) ('str', text) ('var', n) ('add', a, b) ('mul', a, b) ('call', f, (args)) ('invoke', f, ((p, e), ..)) ('ctx', ((k, e), ..), res|None) ('rel', (cols), ((cells..), ..))
 BOXED = ('invoke', 'ctx', 'rel')
 
 
-def text(e):
+def text(e, fg=()):
+    """FEEL text of a literal expression.  fg: names the logic does not require (unknown when the text is parsed): they are written
+    in parentheses, because the lexer reads `zz1 + 3` with an unknown zz1 as ONE name "zz1+3" (names may contain + * and digits;
+    lexing is C10's subject) and `zz1 + "a"` is then a syntax error"""
     k = e[0]
     if k == 'null':
         return 'null'
     if k == 'num':
         return str(e[1])
+    if k == 'str':
+        return '"%s"' % e[1]
     if k == 'var':
-        return nm(e[1])
+        return '(%s)' % nm(e[1]) if e[1] in fg else nm(e[1])
     if k in ('add', 'mul'):
-        return '(%s %s %s)' % (text(e[1]), '+' if k == 'add' else '*', text(e[2]))
+        return '(%s %s %s)' % (text(e[1], fg), '+' if k == 'add' else '*', text(e[2], fg))
     if k == 'call':
-        return '%s(%s)' % (nm(e[1]), ', '.join(text(a) for a in e[2]))
+        return '%s(%s)' % (nm(e[1]), ', '.join(text(a, fg) for a in e[2]))
     raise ValueError('boxed expression inside a literal: %r' % (e,))
 
 
@@ -59,18 +73,18 @@ def esc(s):
     return s.replace('&', '&amp;').replace('<', '&lt;').replace('>', '&gt;')
 
 
-def box(e):
+def box(e, fg=()):
     k = e[0]
     if k == 'invoke':
         return ('<invocation><literalExpression><text>%s</text></literalExpression>' % nm(e[1]) +
-                ''.join('<binding><parameter name="%s"/>%s</binding>' % (nm(p), box(x)) for p, x in e[2]) + '</invocation>')
+                ''.join('<binding><parameter name="%s"/>%s</binding>' % (nm(p), box(x, fg)) for p, x in e[2]) + '</invocation>')
     if k == 'ctx':
-        return ('<context>' + ''.join('<contextEntry><variable name="%s"/>%s</contextEntry>' % (nm(kk), box(x)) for kk, x in e[1]) +
-                ('<contextEntry>%s</contextEntry>' % box(e[2]) if e[2] is not None else '') + '</context>')
+        return ('<context>' + ''.join('<contextEntry><variable name="%s"/>%s</contextEntry>' % (nm(kk), box(x, fg)) for kk, x in e[1]) +
+                ('<contextEntry>%s</contextEntry>' % box(e[2], fg) if e[2] is not None else '') + '</context>')
     if k == 'rel':
         return ('<relation>' + ''.join('<column name="%s"/>' % nm(c) for c in e[1]) +
-                ''.join('<row>' + ''.join(box(x) for x in row) + '</row>' for row in e[2]) + '</relation>')
-    return '<literalExpression><text>%s</text></literalExpression>' % esc(text(e))
+                ''.join('<row>' + ''.join(box(x, fg) for x in row) + '</row>' for row in e[2]) + '</relation>')
+    return '<literalExpression><text>%s</text></literalExpression>' % esc(text(e, fg))
 
 
 def coq_e(e):
@@ -78,7 +92,9 @@ def coq_e(e):
     if k == 'null':
         return 'ENull'
     if k == 'num':
-        return '(ENum %d%%Z)' % e[1]
+        return '(enum (%d)%%Z)' % e[1]       # enum z = ENum (num_lit z): the decimal128 nearest to the integer written
+    if k == 'str':
+        return '(EStr %s)' % coq_str(e[1])
     if k == 'var':
         return '(EVar %d)' % e[1]
     if k in ('add', 'mul'):
@@ -90,6 +106,10 @@ def coq_e(e):
     if k == 'ctx':
         return '(ECtx [%s] %s)' % ('; '.join('(%d, %s)' % (kk, coq_e(x)) for kk, x in e[1]), 'None' if e[2] is None else '(Some %s)' % coq_e(e[2]))
     return '(ERel [%s] [%s])' % ('; '.join(str(c) for c in e[1]), '; '.join('[%s]' % '; '.join(coq_e(x) for x in row) for row in e[2]))
+
+
+def coq_str(t):
+    return '[%s]' % '; '.join(str(ord(c)) for c in t)
 
 
 def nl(l):
@@ -126,7 +146,7 @@ def xml_of(G, rng):
                          ''.join('<informationRequirement><requiredDecision href="#e%d"/></informationRequirement>' % r for r in n['rd']) +
                          ''.join('<informationRequirement><requiredInput href="#e%d"/></informationRequirement>' % r for r in n['ri']) +
                          ''.join('<knowledgeRequirement><requiredKnowledge href="#e%d"/></knowledgeRequirement>' % r for r in n['rk']) +
-                         box(n['logic']) + '</decision>')
+                         box(n['logic'], n.get('foreign', ())) + '</decision>')
         elif k == 'bkm':
             parts.append('<businessKnowledgeModel name="%s" id="e%d"><variable name="%s"/><encapsulatedLogic>' % (nm(i), i, nm(i)) +
                          ''.join('<formalParameter name="%s"/>' % nm(p) for p in n['params']) + box(n['body']) + '</encapsulatedLogic>' +
@@ -187,16 +207,46 @@ def closure_names(B, i, seen=None):
     return out
 
 
+# numbers around the 34 digits of decimal128: 10^17 squared is the first product that is rounded; literals of more than
+# 34 digits are rounded (half-even) when they are read
+BIGS = [10 ** 17, 10 ** 17 + 1, 10 ** 17 - 1, 33333333333333333, 316227766016837933, 10 ** 33, 5 * 10 ** 33, 10 ** 34 - 1, 10 ** 34, 10 ** 34 + 1,
+        99999999999999999999999999999999995, 99999999999999999999999999999999985, 12345678901234567890123456789012345678]
+STRS = ['a', 'b', 'ab', '', '\u00e9', 'x y']
+
+
+def gen_lit(rng):
+    r = rng.random()
+    if r < 0.66:
+        return ('num', rng.randint(0, 5))
+    if r < 0.72:
+        return ('num', -rng.randint(1, 3))
+    if r < 0.86:
+        return ('num', rng.choice(BIGS))
+    return ('str', rng.choice(STRS))
+
+
+def gen_strexp(rng, names, depth):
+    """an operand meant to be a string: a literal, a name (whatever it is bound to), a concatenation"""
+    r = rng.random()
+    if depth > 0 and r < 0.3:
+        return ('add', gen_strexp(rng, names, depth - 1), gen_strexp(rng, names, depth - 1))
+    if names and r < 0.5:
+        return ('var', rng.choice(names))
+    return ('str', rng.choice(STRS))
+
+
 def gen_arith(rng, names, calls, depth, B):
-    """an arithmetic expression over names; calls = [(fname id, arity)]"""
+    """an expression of the literal fragment over names; calls = [(fname id, arity)]"""
     r = rng.random()
     if depth <= 0 or r < 0.25:
         if names and rng.random() < 0.75:
             return ('var', rng.choice(names))
-        return ('num', rng.randint(0, 5))
+        return gen_lit(rng)
     if calls and r < 0.55:
         f, ar = rng.choice(calls)
         return ('call', f, tuple(gen_arith(rng, names, calls, depth - 1, B) for _ in range(ar)))
+    if 0.55 <= r < 0.63:
+        return ('add', gen_strexp(rng, names, 1), gen_strexp(rng, names, 1))
     return (rng.choice(['add', 'add', 'mul']), gen_arith(rng, names, calls, depth - 1, B), gen_arith(rng, names, calls, depth - 1, B))
 
 
@@ -247,6 +297,9 @@ def gen_graph(rng, size, allow_bkm_svc=True):
             if allow_bkm_svc and svcs and rng.random() < 0.35:
                 rk.append(rng.choice(svcs))
             params = [1001, 1002][:rng.randint(1, 2)]
+            if rng.random() < 0.18:
+                # a repeated formal parameter name: the arguments are bound one after the other, the last one stays
+                params = rng.choice([[1001, 1001], [1001, 1002, 1001], [1002, 1001, 1001], [1001, 1001, 1002]])
             calls = [(b, len(B[b]['params'])) for b in rk if B[b]['kind'] == 'bkm'] + [(s, len(svc_params(B, B[s]))) for s in rk if B[s]['kind'] == 'svc']
             body = gen_logic(rng, params, calls, [b for b in rk if B[b]['kind'] == 'bkm'], B, depth=1)
             new('bkm', params=params, body=body, rk=rk, callable=kclosure(B, rk))
@@ -277,12 +330,14 @@ def gen_graph(rng, size, allow_bkm_svc=True):
                 rk.append(rng.choice(svcs))
             calls = [(b, len(B[b]['params'])) for b in rk if B[b]['kind'] == 'bkm'] + [(s, len(svc_params(B, B[s]))) for s in rk if B[s]['kind'] == 'svc']
             names = ri + rd
+            fg = []
             if rng.random() < 0.25:
                 # the logic also mentions a name it does not require (an input, a decision, a fresh name): it must see null whatever the caller supplies
                 foreign = [x for x in inputs + decs if x not in names] + [3001, 3002]
-                names = names + [rng.choice(foreign)]
+                fg = [rng.choice(foreign)]
+                names = names + fg
             logic = gen_logic(rng, names, calls, [b for b in rk if B[b]['kind'] == 'bkm'], B)
-            new('dec', logic=logic, rk=rk, rd=rd, ri=ri, callable=kclosure(B, rk))
+            new('dec', logic=logic, rk=rk, rd=rd, ri=ri, callable=kclosure(B, rk), foreign=fg)
     return G
 
 
@@ -311,6 +366,21 @@ def witness_graphs():
               dict(kind='svc', id=9, ins=[1], indecs=[3], encs=[4], outs=[6, 4]),
               dict(kind='dec', id=10, rk=[8, 9], rd=[6], ri=[1], callable=[9],
                    logic=('ctx', ((2001, ('invoke', 8, ((1002, ('var', 6)), (1001, ('var', 1))))), (2002, ('call', 9, (('var', 1), ('var', 6))))), None))])
+    # the three places where an earlier tiny evaluator differed from the code: "a" + "b" (and the null mixes), formal parameters
+    # (p1, p1) called as f(1, 2) and by a boxed invocation with two bindings of p1, a * a + 1 at a = 10^17 (35 digits), a literal
+    # of 35 digits, -3 * 0
+    W.append([dict(kind='input', id=1),
+              dict(kind='bkm', id=2, params=[1001, 1001], body=('var', 1001), rk=[], callable=[]),
+              dict(kind='dec', id=3, rk=[2], rd=[], ri=[], callable=[], logic=('call', 2, (('num', 1), ('num', 2)))),
+              dict(kind='dec', id=4, rk=[], rd=[], ri=[], callable=[], logic=('add', ('str', 'a'), ('str', 'b'))),
+              dict(kind='dec', id=5, rk=[], rd=[], ri=[1], callable=[], logic=('add', ('mul', ('var', 1), ('var', 1)), ('num', 1))),
+              dict(kind='dec', id=6, rk=[], rd=[4], ri=[], callable=[],
+                   logic=('ctx', ((2001, ('add', ('var', 4), ('str', 'c'))), (2002, ('add', ('var', 4), ('num', 1))), (2003, ('mul', ('var', 4), ('var', 4))),
+                                  (2004, ('add', ('null',), ('str', 'a')))), None)),
+              dict(kind='dec', id=7, rk=[2], rd=[], ri=[], callable=[], logic=('invoke', 2, ((1001, ('num', 1)), (1001, ('str', 'z'))))),
+              dict(kind='dec', id=8, rk=[], rd=[5], ri=[], callable=[],
+                   logic=('rel', (2001, 2002), ((('add', ('mul', ('num', 10 ** 17), ('num', 10 ** 17)), ('num', 1)), ('num', 99999999999999999999999999999999995)),
+                                                (('mul', ('num', -3), ('num', 0)), ('mul', ('var', 5), ('var', 5))))))])
     return W
 
 
@@ -322,7 +392,14 @@ def input_sets(rng, G, B, n):
     """input contexts for invocable n: (label, entries dict name-number -> int|None, base index or None)"""
     cl = closure_names(B, n['id'])
     rel = sorted(x for x in cl if x >= 1000 or B[x]['kind'] == 'input' or (n['kind'] == 'svc' and x in n['indecs']))
-    full = {x: rng.randint(1, 6) for x in rel}
+    def val():
+        r = rng.random()
+        if r < 0.82:
+            return rng.randint(1, 6)
+        if r < 0.95:
+            return rng.choice(BIGS)
+        return rng.choice(STRS)             # a string for number-typed input data is null; a parameter / input decision keeps it
+    full = {x: val() for x in rel}
     sets = [('full', full, None)]
     others = [m['id'] for m in G if m['id'] not in cl] + [3001, 3002, 1003, 2001]
     extra = dict(full)
@@ -340,27 +417,42 @@ def input_sets(rng, G, B, n):
     ovr = [x for x in cl if x < 1000 and x != n['id'] and B[x]['kind'] == 'dec']
     if ovr:
         o = dict(full)
-        o[rng.choice(ovr)] = 50
+        o[rng.choice(ovr)] = rng.choice([50, 50, 10 ** 17, 'ab'])
         sets.append(('override', o, None))
     return sets
 
 
 def ctx_text(d):
-    return '{' + ', '.join('%s: %s' % (nm(k), 'null' if v is None else str(v)) for k, v in sorted(d.items())) + '}'
+    return '{' + ', '.join('%s: %s' % (nm(k), 'null' if v is None else '"%s"' % v if isinstance(v, str) else str(v)) for k, v in sorted(d.items())) + '}'
 
 
 def coq_env(d):
-    return '[%s]' % '; '.join('(%d, %s)' % (k, 'VNull' if v is None else 'VNum %d%%Z' % v) for k, v in sorted(d.items()))
+    return '[%s]' % '; '.join('(%d, %s)' % (k, 'VNull' if v is None else 'VStr %s' % coq_str(v) if isinstance(v, str) else 'vnum (%d)%%Z' % v)
+                              for k, v in sorted(d.items()))
+
+
+def numc(d):
+    """canonical form of a number: the normalised exact decimal (numbers are compared by value: 1E+1 = 10, -0 = 0)"""
+    d = Decimal(d)
+    return ('n', '0' if d == 0 else str(d.normalize()))
 
 
 def norm(j):
     if j is None:
         return None
+    if isinstance(j, str):
+        return ('s', j)
     if isinstance(j, list):
         return ('l', tuple(norm(x) for x in j))
     if isinstance(j, dict):
-        if 'p' in j and re.fullmatch(r'-?\d+', j['p']):
-            return int(j['p'])
+        if 'n' in j:
+            try:
+                d = Decimal(j['n'])
+                if d.is_finite():
+                    return numc(d)
+            except Exception:
+                pass
+            return ('?', json.dumps(j))
         if 'c' in j:
             return ('c', tuple(sorted((kk, norm(x)) for kk, x in j['c'])))
         if 'f' in j:
@@ -368,12 +460,26 @@ def norm(j):
     return ('?', json.dumps(j))
 
 
-def big(v):
-    if isinstance(v, int):
-        return abs(v) >= 10 ** 30
-    if isinstance(v, tuple) and v and v[0] in ('l', 'c'):
-        return any(big(x[1] if v[0] == 'c' else x) for x in v[1])
-    return False
+def features(x, out):
+    """what a model value exercises: strings, numbers beyond 17 digits, numbers with a positive exponent (a rounded product / sum / literal)"""
+    if isinstance(x, App):
+        if x.name == 'VStr':
+            out.add('value holds a string')
+        elif x.name == 'VNum':
+            d = x.args[0]
+            if d['coef'] >= 10 ** 17:
+                out.add('value holds a number of 18..34 digits')
+            if d['expo'] > 0:
+                out.add('value holds a number with exponent > 0 (rounded to 34 digits)')
+            if d['neg']:
+                out.add('value holds a negative number or -0')
+        elif x.name == 'VList':
+            for y in x.args[0]:
+                features(y, out)
+        elif x.name == 'VCtx':
+            for _, y in x.args[0]:
+                features(y, out)
+    return out
 
 
 def term_val(x):
@@ -381,7 +487,10 @@ def term_val(x):
         if x.name == 'VNull':
             return None
         if x.name == 'VNum':
-            return x.args[0]
+            d = x.args[0]
+            return numc(Decimal((1 if d['neg'] else 0, tuple(int(c) for c in str(d['coef'])), d['expo'])))
+        if x.name == 'VStr':
+            return ('s', ''.join(chr(c) for c in x.args[0]))
         if x.name == 'VList':
             return ('l', tuple(term_val(y) for y in x.args[0]))
         if x.name == 'VCtx':
@@ -456,12 +565,9 @@ def judge(ctx, res, stats):
                 break
             got = norm(row['impl']['v'])
             im, sp = term_val(row['model'][0]), term_val(row['model'][1])
-            if big(sp) or big(im):
-                # beyond 30 digits the implementation's decimal128 arithmetic rounds (C02's subject); all generated arithmetic is over
-                # non-negative integers with + and *, so a result below the bound has no rounded intermediate that matters
-                stats['skipped: number beyond 10^30'] = stats.get('skipped: number beyond 10^30', 0) + 1
-                continue
             stats[n['kind']] = stats.get(n['kind'], 0) + 1
+            for ft in features(row['model'][1], set()):
+                stats[ft] = stats.get(ft, 0) + 1
             stats['in:' + row['label']] = stats.get('in:' + row['label'], 0) + 1
             if got is not None:
                 ctx.nontrivial.add((id(g), row['id'], row['label']))
@@ -498,19 +604,32 @@ def run(ctx):
     sizes = {}
     for G in graphs:
         sizes[len(G)] = sizes.get(len(G), 0) + 1
+        src = repr([n.get('logic') or n.get('body') for n in G])
+        for key, hit in (('graphs: a knowledge model with a repeated formal parameter name', any(n['kind'] == 'bkm' and len(set(n['params'])) < len(n['params']) for n in G)),
+                         ('graphs: string literal in a logic', "('str'," in src),
+                         ('graphs: literal of 17+ digits in a logic', re.search(r"\('num', \d{17,}\)", src) is not None),
+                         ('graphs: literal of 35+ digits in a logic (rounded when read)', re.search(r"\('num', \d{35,}\)", src) is not None)):
+            if hit:
+                stats[key] = stats.get(key, 0) + 1
     return ctx.finish(
         rule='acyclic DRGs of 4..%d nodes generated node by node (each node requires earlier nodes): number-typed inputs; decisions with literal, boxed context (entries seeing earlier entries, '
-             'optional result entry, nested boxed values), boxed invocation and relation logic; knowledge models with 1-2 parameters invoked by f(x) and by boxed invocation, requiring knowledge models and '
-             'decision services; decision services with input / encapsulated / output decisions (one or two outputs) required as functions; every invocable is invoked with: all relevant inputs, '
+             'optional result entry, nested boxed values), boxed invocation and relation logic; knowledge models with 1-3 parameters (18 %% of them with a repeated parameter name) invoked by f(x) and by '
+             'boxed invocation, requiring knowledge models and decision services; decision services with input / encapsulated / output decisions (one or two outputs) required as functions; literals: '
+             'integers 0..5, -1..-3, numbers around 10^17 / 10^33 / 10^34 and literals of 35 and 38 digits, strings (6 texts, the empty one and a non-ASCII one among them); + and * over them and over '
+             'names, 8 %% of the operators a + between string-valued operands; every invocable is invoked with: all relevant inputs (values 1..6, 13 %% numbers of 17..38 digits, 5 %% strings), '
              'the same plus entries named like nodes outside its requirement closure or fresh names (non-interference, judged on the implementation alone), a partial input, the empty input, and an '
-             'input that names a required decision; plus hand-written witnesses (context entry leak, service required by a knowledge model, diamond through a service). non-trivial = non-null result' % ctx.pick(10, 14),
+             'input that names a required decision; plus hand-written witnesses (context entry leak, service required by a knowledge model, diamond through a service, string + string and its null mixes, '
+             'formal parameters (p1, p1) called positionally and by boxed invocation, a * a + 1 at a = 10^17, -3 * 0). numbers are compared by value at every size (no case is skipped). '
+             'non-trivial = non-null result' % ctx.pick(10, 14),
         extra_cov={'exhaustive': False, 'graphs': len(graphs), 'graph_sizes': sizes, 'histogram': stats},
-        assumptions=['logic is drawn from the modelled expression language (numbers, + *, names, calls, boxed context / invocation / relation); values are small integers',
-                     'element and variable names are unique within a model; input data are number-typed and receive numbers; output variables are untyped',
+        assumptions=['logic is drawn from the modelled expression language (integer literals of any length, string literals, + *, names, calls, boxed context / invocation / relation); '
+                     'a name the logic does not require is written in parentheses (unparenthesised, the lexer reads `zz1 + 3` with an unknown zz1 as the single name "zz1+3": C10)',
+                     'element and variable names are unique within a model (formal parameter names of a knowledge model may repeat); input data are number-typed (a string supplied for them is null); output variables and formal parameters are untyped',
                      'interpretive choice: an input entry named like a required decision or knowledge model replaces its value (FeelContext::overwrite; this is how a decision service hands its input decisions to the encapsulated decisions); '
                      'the input decisions of a service are parameters: their values are taken from the input context, null when absent',
                      'a logic may call the decision services of its knowledge requirement closure (callable_ok checks the annotation on every generated graph)'],
-        trusted=['FEEL parsing and evaluation of the generated literal expressions (abstracted by the tiny evaluator teval: sampled, not proved)'])
+        trusted=['FEEL parsing and evaluation of the generated literal expressions (abstracted by the tiny evaluator teval: sampled here; proved equal to the FEEL evaluator model of C01 on the shared fragment, C04_teval_is_feel_eval)',
+                 'decimal128 + and * as specified in coq/Base/DecRound.v (C02 ties them to the code)'])
 
 
 def replay(ctx, path):
@@ -535,5 +654,5 @@ def replay(ctx, path):
 
 MANIFEST = dict(
     technique='Coq proof (recursive closure wiring refines the per-node semantics tabulated along a topological order; non-interference; over an abstract expression evaluator, instantiated with the evaluator of the check) with model/code correspondence on generated DRGs',
-    text='Theorems (coq/Props/C04.v, closed under the global context) for every acyclic requirement graph (inputs, decisions, knowledge models requiring knowledge models and services, decision services with input/encapsulated/output decisions), every node, every input context and every fuel >= |graph|, over ANY expression evaluator that uses its service call-back extensionally: the recursive closures of decision.rs / business_knowledge_model.rs / decision_service.rs compute the semantics tabulated once per node in topological order (so diamonds agree and fuel is irrelevant), that semantics is a fixed point of the closure body, the logic of a decision sees exactly its required inputs, the function values of its knowledge closure and the own value of each required decision (C04_decision_scope / C04_decision_sees), a decision service returns the values of its output decisions (C04_service_outputs), and input entries outside the requirement closure of the invoked element have no influence. The tiny evaluator is tied to the FEEL evaluator model of C01 (C04_teval_is_feel_eval, coq/C04/LinkC01.v): on null, numbers, strings, names, + *, literal invocation of knowledge-model function values and boxed contexts with or without result entry it equals, up to the sign of zero, C01 eval_spec and the scope-stack machine run_impl on the translated expression and environment, whenever the evaluation stays in that fragment within 60 levels with sums and products of at most 34 digits, no string concatenation and distinct formal parameter names (C04_teval_feel_corners shows the two models differ outside these hypotheses, the real code siding with C01). Tied to the code by generated DMN documents (literal, boxed context, boxed invocation, relation logic; BKMs invoked literally and boxed; services as functions) evaluated through evaluate_invocable against the model instantiated with a tiny evaluator; non-interference is also judged on the implementation alone.',
+    text='Theorems (coq/Props/C04.v, closed under the global context) for every acyclic requirement graph (inputs, decisions, knowledge models requiring knowledge models and services, decision services with input/encapsulated/output decisions), every node, every input context and every fuel >= |graph|, over ANY expression evaluator that uses its service call-back extensionally: the recursive closures of decision.rs / business_knowledge_model.rs / decision_service.rs compute the semantics tabulated once per node in topological order (so diamonds agree and fuel is irrelevant), that semantics is a fixed point of the closure body, the logic of a decision sees exactly its required inputs, the function values of its knowledge closure and the own value of each required decision (C04_decision_scope / C04_decision_sees), a decision service returns the values of its output decisions (C04_service_outputs), and input entries outside the requirement closure of the invoked element have no influence. The tiny evaluator is tied to the FEEL evaluator model of C01 (C04_teval_is_feel_eval, coq/C04/LinkC01.v): on null, numbers, strings, names, + *, literal invocation of knowledge-model function values and boxed contexts with or without result entry it EQUALS C01 eval_spec and the scope-stack machine run_impl on the translated expression and environment (the sign of a zero included), whenever the evaluation stays in that fragment within 60 levels — no other hypothesis: numbers are decimal128 data with the rounded + * of coq/Base/DecRound.v on both sides (any size, overflow = null), + concatenates strings, of two equal formal parameter names the last argument stays bound (C04_teval_feel_corners: "a"+"b" = "ab", f(1,2) with parameters (x,x) = 2, a*a+1 at a = 10^17 = 1E+34, -3*0 = -0 in teval, in C01 and in the real code). Tied to the code by generated DMN documents (literal, boxed context, boxed invocation, relation logic; BKMs invoked literally and boxed, some with repeated parameter names; services as functions; string operands; numbers up to 38 digits, compared by value at every size) evaluated through evaluate_invocable against the model instantiated with the tiny evaluator; non-interference is also judged on the implementation alone.',
     note='Trusted: Coq kernel + vm_compute, hand-written model of the wiring (correspondence-checked, not verified), the tiny evaluator standing for the FEEL evaluator on the generated expression fragment, harness. Interpretive choices listed in the evidence (input entries named like a required decision override it; service input decisions are parameters). Decision tables and boxed function definitions as logic are not generated (C03 / C01).')
